@@ -491,7 +491,7 @@ fn main() {
     ctx.sample(json!({"state": {"unit": "ms", "value": -1500}, "actions": {"into_unit<s>": format!("{:?}", conv(1, 0, -1500, false)), "model": "-2 (floor, as chrono)"}}));
     ctx.sample(json!({"state": {"unit": "ns", "value": "NaT"}, "actions": {"into_unit<us>": format!("{:?}", conv(3, 2, NAT, false)), "model": "NaT"}}));
     let meta = Meta {
-        rule: "finite lattice of (unit, timestamp) states: NaT, NaT+1, i64::MAX, 0, +-1, q*r+-rho for every unit ratio r (q small and near the range limits, rho around 0, r/2 and r), the first instant of every month 1678-01..2262-03 +-1 unit; search with dedup over chains of unit conversions (into_unit and the Cast impls) up to the stated depth, every state also checked for into_opt_i64, Cast<Option<i64>>, as_cr, From<chrono>, calendar fields against chrono; plus every operator of impl_ops.rs with a NaT operand. Oracle: floor division in i128 (= chrono's timestamp of the same instant), exact multiplication when it fits (overflow: panic or NaT), NaT -> NaT / None. Non-trivial = distinct (unit, value) states.".into(),
+        rule: "finite lattice of (unit, timestamp) states: NaT, NaT+1, i64::MAX, 0, +-1, q*r+-rho for every unit ratio r (q small and near the range limits, rho around 0, r/2 and r), the first instant of every month 1678-01..2262-03 +-1 unit; search with dedup over chains of unit conversions (into_unit and the Cast impls) up to the stated depth, every state also checked for into_opt_i64, Cast<Option<i64>>, as_cr, From<chrono>, calendar fields against chrono; plus every operator of impl_ops.rs with a NaT operand. Oracle: floor division in i128 (= chrono's timestamp of the same instant), exact multiplication when it fits (overflow: panic or NaT), NaT -> NaT / None. Non-trivial = distinct (unit, value) states. Also (DESIGN 5.15, 5.16): Cast<Option<T>> for the seven other numeric targets and Cast<f32 / f64> in every state (null iff NaT); the deprecated to_cr and TryFrom<DateTime> for the calendar type next to as_cr.".into(),
         bounds: json!({"units": UNITS, "root_states": n_roots, "chain_depth": depth,
             "second_engine": {"tool": "stateright 0.31 spawn_bfs, 1 thread", "unique_states": sr_states, "explorer_unique_states": explorer_states, "discoveries": sr_discoveries}}),
         assumptions: vec!["chrono is the oracle for calendar facts".into(), "conversion to a finer unit that overflows i64: panic or NaT accepted (DESIGN 5.6)".into()],
